@@ -349,6 +349,7 @@ var Entries = []*Entry{
 		ir := exif2.NewIfdReader(exif2.Logger)
 		defer ir.Close()
 		rd := mkReader(env, r, res)
+		prepos(env, r, rd)
 		ecb, xcb := exifCB(env, &ir, true), xmpCB(env, res)
 		m0()
 		err := jpeg.ScanJPEG(rd, ecb, xcb)
@@ -368,6 +369,7 @@ var Entries = []*Entry{
 	}},
 	{Name: "tiff.ScanTiffHeader", Hint: "tiff", Call: func(env *Env, r *world.SimReader, res *Result) {
 		rd := mkReader(env, r, res)
+		prepos(env, r, rd)
 		m0()
 		h, err := tiff.ScanTiffHeader(rd, imagetype.ImageUnknown)
 		m1()
@@ -391,6 +393,7 @@ var Entries = []*Entry{
 		ir := exif2.NewIfdReader(exif2.Logger)
 		defer ir.Close()
 		rd := mkReader(env, r, res)
+		prepos(env, r, rd)
 		bmr := isobmff.NewReader(rd)
 		defer bmr.Close()
 		bmr.ExifReader = exifCB(env, &ir, false)
@@ -456,6 +459,7 @@ var Entries = []*Entry{
 	}},
 	{Name: "xmp.ParseXmp", Hint: "xmp", Call: func(env *Env, r *world.SimReader, res *Result) {
 		rd := mkReader(env, r, res)
+		prepos(env, r, rd)
 		m0()
 		x, err := xmp.ParseXmp(rd)
 		m1()
